@@ -1110,6 +1110,12 @@ func (g *genCtx) identLines(st *c12State) {
 			}
 		}
 		walk(file.Messages, nil)
+		// goTypes / depIdxs tables handed to protoimpl.TypeBuilder vs the model's prediction from the descriptor
+		if strings.Contains(src, "protoimpl.TypeBuilder") || strings.Contains(src, ".TypeBuilder{") {
+			o.kase("GENDEPIDX", []string{depSpec(file)}, orMissing(depTables(src)))
+			o.count("ident/deptable")
+			o.nontrivial(fmt.Sprintf("dep/%d/%d/%d", len(file.Messages), len(file.Services), len(file.Extensions)))
+		}
 	}
 }
 
@@ -1193,4 +1199,113 @@ func sizeOpens(src, goName string) string {
 		}
 	}
 	return ""
+}
+
+// depSpec renders what genReflectFileDescriptor sees of a file: (F (E enum...) (X (x extendee type|-)...) (MS msg...) (SV (S (m in out)...)...))
+// with msg = (M full (E enum...) (X ext...) (R ref|-...) (N msg...)); all names are full names
+func depSpec(file *protogen.File) string {
+	var sb strings.Builder
+	enums := func(es []*protogen.Enum) {
+		sb.WriteString("(E")
+		for _, e := range es {
+			sb.WriteString(" " + string(e.Desc.FullName()))
+		}
+		sb.WriteString(")")
+	}
+	exts := func(xs []*protogen.Extension) {
+		sb.WriteString("(X")
+		for _, x := range xs {
+			t := "-"
+			if x.Enum != nil {
+				t = string(x.Enum.Desc.FullName())
+			} else if x.Message != nil {
+				t = string(x.Message.Desc.FullName())
+			}
+			sb.WriteString(" (x " + string(x.Extendee.Desc.FullName()) + " " + t + ")")
+		}
+		sb.WriteString(")")
+	}
+	var msgs func(ms []*protogen.Message)
+	msgs = func(ms []*protogen.Message) {
+		for _, m := range ms {
+			sb.WriteString("(M " + string(m.Desc.FullName()) + " ")
+			enums(m.Enums)
+			exts(m.Extensions)
+			sb.WriteString("(R")
+			for _, f := range m.Fields {
+				switch {
+				case f.Enum != nil:
+					sb.WriteString(" " + string(f.Enum.Desc.FullName()))
+				case f.Message != nil:
+					sb.WriteString(" " + string(f.Message.Desc.FullName()))
+				default:
+					sb.WriteString(" -")
+				}
+			}
+			sb.WriteString(")(N")
+			msgs(m.Messages)
+			sb.WriteString("))")
+		}
+	}
+	sb.WriteString("(F ")
+	enums(file.Enums)
+	exts(file.Extensions)
+	sb.WriteString("(MS")
+	msgs(file.Messages)
+	sb.WriteString(")(SV")
+	for _, sv := range file.Services {
+		sb.WriteString("(S")
+		for _, me := range sv.Methods {
+			sb.WriteString(" (m " + string(me.Input.Desc.FullName()) + " " + string(me.Output.Desc.FullName()) + ")")
+		}
+		sb.WriteString(")")
+	}
+	sb.WriteString("))")
+	return sb.String()
+}
+
+var (
+	reGoTypesStart = regexp.MustCompile(`^var file_\S+_goTypes = \[\]interface\{\}\{(\})?$`)
+	reDepIdxsStart = regexp.MustCompile(`^var file_\S+_depIdxs = \[\]int32\{(\})?$`)
+	reGoTypeLine   = regexp.MustCompile(`// (\d+): (\S+)$`)
+	reDepLine      = regexp.MustCompile(`^\t(-?\d+),`)
+)
+
+// depTables parses the emitted goTypes (full names from the line comments, in order, indexes checked) and depIdxs tables
+func depTables(src string) string {
+	var names, idxs []string
+	mode := ""
+	seenG, seenD := false, false
+	for _, l := range strings.Split(src, "\n") {
+		switch {
+		case mode == "" && reGoTypesStart.MatchString(l):
+			seenG = true
+			if !strings.HasSuffix(l, "{}") {
+				mode = "g"
+			}
+		case mode == "" && reDepIdxsStart.MatchString(l):
+			seenD = true
+			if !strings.HasSuffix(l, "{}") {
+				mode = "d"
+			}
+		case mode != "" && l == "}":
+			mode = ""
+		case mode == "g":
+			m := reGoTypeLine.FindStringSubmatch(l)
+			if m == nil || m[1] != fmt.Sprint(len(names)) {
+				return "unparsable-goTypes-line:" + strings.TrimSpace(l)
+			}
+			names = append(names, m[2])
+		case mode == "d":
+			m := reDepLine.FindStringSubmatch(l)
+			if m == nil {
+				return "unparsable-depIdxs-line:" + strings.TrimSpace(l)
+			}
+			idxs = append(idxs, m[1])
+		}
+	}
+	if !seenG || !seenD {
+		return ""
+	}
+	return strings.Join(names, ",") + "|" + strings.Join(idxs, ",")
 }
